@@ -1,5 +1,6 @@
 import Cinco.Props.C16
 import Cinco.Generated.Parser
+import Cinco.Generated.SupportShape
 /-
   C16 (continuation) — the generated parser hands the command line's text to the field and adds nothing of its own.
   The model's parser (`genParser` / `parseArgs`, Config/Paths.lean) has exactly three kinds of option: one that stores the text it is
@@ -45,5 +46,20 @@ theorem unsupplied_is_none (opts : List OptSpec) (given : List (String × Option
     have := h g (List.mem_reverse.1 hg)
     simpa using this
   simp [this]
+
+/-- **/repo's `cmdline_args_override` and `get_all_fields` are what `cmdlineOverride` / `allPaths` of Config/Paths.lean follow**
+    (generated reading of cincoconfig/support.py, regenerated on every run): every namespace entry that is not ignored and not `None`
+    goes through the configuration's own `__setitem__` with the value as it is, in namespace order, nothing else is touched; the
+    enumeration lists each field under prefix + key in schema order and expands a nested schema right after its own entry -/
+theorem override_code_order :
+    Generated.supportShape.lookup "cmdline_args_override" =
+      some ["if[isinstance(ignore, str)]", "ignore = [ignore]", "else", "ignore = ignore or []", "end", "loop[vars(args).items()]",
+            "if[key not in ignore and value is not None]", "config.__setitem__(key, value)", "end", "end"] ∧
+    Generated.supportShape.lookup "get_all_fields" =
+      some ["if[isinstance(schema, Config)]", "schema = schema._schema", "end", "ret = []",
+            "prefix = schema._key + '.' if schema._key else ''", "loop[schema._fields.items()]",
+            "ret.append((prefix + key, schema, field))", "if[isinstance(field, Schema)]",
+            "ret.extend([(prefix + subkey, schema, subfield) for subkey, schema, subfield in get_all_fields(field)])", "end", "end",
+            "return ret"] := by decide
 
 end Cinco.C16b
